@@ -1935,7 +1935,9 @@ func (e *executor) executeClearRow(ctx context.Context, index string, c *pql.Cal
 	if err != nil {
 		return false, errors.Wrap(err, "mapreducing clearrow")
 	}
-	return result.(bool), err
+	// result is nil when no shard produced a value.
+	changed, _ := result.(bool)
+	return changed, nil
 }
 
 // executeClearRowShard executes a ClearRow() call for a single shard.
@@ -2008,7 +2010,12 @@ func (e *executor) executeSetRow(ctx context.Context, index string, c *pql.Call,
 	}
 
 	result, err := e.mapReduce(ctx, index, shards, c, opt, mapFn, reduceFn)
-	return result.(bool), err
+	if err != nil {
+		return false, errors.Wrap(err, "mapreducing setrow")
+	}
+	// result is nil when no shard produced a value.
+	changed, _ := result.(bool)
+	return changed, nil
 }
 
 // executeSetRowShard executes a SetRow() call for a single shard.
